@@ -885,3 +885,37 @@ func (c *Ctx) edgeIntoEstablishes(from, to *ssa.BasicBlock, g Gate) bool {
 	}
 	return false
 }
+
+// Never is a gate nothing establishes; used to test reachability of exits.
+var Never = Gate{Key: "<never>", Desc: "never"}
+
+// SuccessReachable: some exit of fn with outcome o is reachable under the
+// assumptions (guards against vacuous establishment).
+func (c *Ctx) SuccessReachable(fn *ssa.Function, o Outcome) bool {
+	ok, _ := c.search(fn, fn.Blocks[0], -1, o, Never, nil)
+	return !ok
+}
+
+// SuccessReturns lists the Return instructions of fn that may have outcome o.
+func (c *Ctx) SuccessReturns(fn *ssa.Function, o Outcome) []*ssa.Return {
+	var out []*ssa.Return
+	for _, b := range fn.Blocks {
+		r, ok := b.Instrs[len(b.Instrs)-1].(*ssa.Return)
+		if !ok {
+			continue
+		}
+		if len(b.Preds) == 0 {
+			if c.exitMaySucceedWithout(fn, r, -1, o, Never) {
+				out = append(out, r)
+			}
+			continue
+		}
+		for i := range b.Preds {
+			if c.exitMaySucceedWithout(fn, r, i, o, Never) {
+				out = append(out, r)
+				break
+			}
+		}
+	}
+	return out
+}
